@@ -182,3 +182,56 @@ Lemma load_flag_irrelevant_proof : forall limit flag flag' mode mode' codecs cas
   load_suite limit {| s_flag := flag; s_mode := mode; s_codecs := codecs; s_cases := cases |} =
   load_suite limit {| s_flag := flag'; s_mode := mode'; s_codecs := codecs; s_cases := cases |}.
 Proof. reflexivity. Qed.
+
+(* ---------- the readers installed by the set-up code ---------- *)
+Lemma documented_chain_is_stream_accepts limit sizes :
+  chain_accepts (documented_chain limit) sizes = stream_accepts limit sizes.
+Proof. unfold chain_accepts, documented_chain. cbn. apply andb_true_r. Qed.
+
+Lemma documented_chain_sharp_proof : forall limit,
+  stream_sharp_at limit (chain_accepts (documented_chain limit)).
+Proof.
+  intros limit sizes. rewrite documented_chain_is_stream_accepts. apply stream_sharp_proof.
+Qed.
+
+(* any non-empty chain of per-message readers that were all handed the limit is as good *)
+Lemma per_message_chain_sharp_proof : forall limit kinds cap,
+  kinds <> [] -> Forall (fun k => k = 0) kinds ->
+  stream_sharp_at limit (chain_accepts (chain_of kinds limit cap)).
+Proof.
+  intros limit kinds cap NE All sizes. rewrite <- (stream_sharp_proof limit sizes).
+  unfold chain_accepts, chain_of. rewrite forallb_forall. split.
+  - intros H. destruct kinds as [|k ks]; [congruence|].
+    inversion All; subst. apply (H (PerMessage limit)). cbn. auto.
+  - intros H r Hr. apply in_map_iff in Hr. destruct Hr as (k & <- & Hk).
+    rewrite Forall_forall in All. rewrite (All k Hk). cbn. exact H.
+Qed.
+
+Lemma body_length_repeat s : forall n, body_length (repeat s n) = Z.of_nat n * (envelope_prefix + s).
+Proof.
+  induction n as [|n IH]; [reflexivity|].
+  change (body_length (repeat s (S n))) with (envelope_prefix + s + body_length (repeat s n)).
+  rewrite IH. lia.
+Qed.
+
+(* a bound on the body is never a bound per message: whatever the cap, some stream whose messages
+   are all of exactly the limit is refused *)
+Lemma body_cap_not_sharp_proof : forall limit cap rs,
+  0 <= limit -> In (PerBody cap) rs -> ~ stream_sharp_at limit (chain_accepts rs).
+Proof.
+  intros limit cap rs L Hin Sharp.
+  remember (S (Z.to_nat (Z.max 0 cap))) as n eqn:En.
+  assert (A : chain_accepts rs (repeat limit n) = true).
+  { apply Sharp. intros s Hs. apply repeat_spec in Hs. lia. }
+  unfold chain_accepts in A. rewrite forallb_forall in A. specialize (A _ Hin).
+  change (body_length (repeat limit n) <=? cap = true) in A.
+  apply Z.leb_le in A. rewrite body_length_repeat in A. unfold envelope_prefix in A.
+  assert (N : Z.of_nat n = Z.max 0 cap + 1) by (rewrite En, Nat2Z.inj_succ, Z2Nat.id; lia).
+  rewrite N in A. nia.
+Qed.
+
+(* the tables regenerated from the set-up code of both reference peers describe the documented chain *)
+Lemma installed_readers_documented_proof : forall limit cap,
+  chain_of c19_server_read_limiters limit cap = documented_chain limit /\
+  chain_of c19_client_read_limiters limit cap = documented_chain limit.
+Proof. intros. split; reflexivity. Qed.
